@@ -290,7 +290,7 @@ PENDING = "check not built yet (framework under construction; DESIGN.md lists th
 
 # Rules added after the first round of independently seeded changes and defect triage (appended to the claim texts above)
 EXTRA = {
-    "C01": " Added: a quoted forward reference is never an operand of `|` (optional self-references are quoted as one union); the tag modules client.py imports are the ones written (grouping agreement shared with C07).",
+    "C01": " Added: a quoted forward reference is never an operand of `|` (optional self-references are quoted as one union); the tag modules client.py imports are the ones written (grouping agreement shared with C07). RenderContext's completion of incomplete internal module paths never applies to a module of the core package.",
     "C02": " Added: colliding property names keep distinct fields (rename-until-unused pattern); the recursion context (depth override, allow_self_reference) is handed to every recursive parse call; no registration-vetoing flag is raised before the registration decision.",
     "C03": " Added: the two composition resolvers (oneOf / anyOf copies) return the same results; type-array nullability is read from the document node at every sibling site.",
     "C05": " Added: every declared media type passes the streaming classification in the loader; the handler's type-alias tests exclude what ModelVisitor's classification excludes (enums are classes).",
